@@ -46,6 +46,20 @@ var propertyClauses = map[string]clauseInfo{
 			"data-race freedom and result equality are derived from the frame conditions by the argument of DESIGN 7.19, not checked dynamically",
 		},
 	},
+	"C10": {
+		decided: []string{
+			"element per block kind: preBlock/postBlock emit exactly the documented start/end tag for paragraph (nothing inside a tight list), thematic break, ATX/setext heading by level, block quote, list item, bullet/ordered list, and nothing for link reference definitions and list markers (preBlock returns false for them); HTML blocks are descended into exactly when IgnoreRaw is off",
+			"the language class of a code block is the escaped first word (strings.Fields) of the info string's text; the start attribute is the list item number",
+			"every piece appended by the four emission functions is a fixed literal, escaped accessor text, digits, node text licensed by the node invariant, or raw HTML under !IgnoreRaw, and the output is only ever extended (shared with C07); tag emitters and appendAltText have exact contracts; filterRaw as in C17",
+			"Render: one Write per block, in order, the buffer handed to AppendBlock is empty for the first block and a blank line afterwards and AppendBlock is given blocks[i]; it stops at the first write error and reports an error exactly then",
+			"frame: nothing reachable from Render/AppendBlock/RenderHTML writes the renderer value, the blocks, the trees or Source, or a package-level variable; no map iteration or goroutine (determinism side conditions)",
+		},
+		notDecided: []string{
+			"AppendBlock's own contract (result = dst followed by bytes that depend only on renderer and block) is assumed: its body hands library closures to Walk, which the Walk contract does not cover",
+			"inline kinds: link/image attribute assembly, soft-break behaviours, autolinks are covered by the vocabulary obligations only, not by an exact per-kind emission equation",
+			"composition of the per-node emissions into the whole output (lemma L-C10) and that the node accessors return what an independent reading would",
+		},
+	},
 	"C11": {
 		decided: []string{
 			"isEmphasisDelimiterMatch equals rules 9 and 10 of section 6.2 over the original run lengths, for all operands",
@@ -98,6 +112,19 @@ var propertyClauses = map[string]clauseInfo{
 			"parseEndBracket: that a reference-style link or image is created only after MatchReference returned true for its normalised label (tree-building code, not under contract)",
 			"Parse: every Extract precedes every Rewrite (two-pass) — visible in the code of Parse, whose loop is under contract only for the parser state",
 			"recognition of definitions (onCloseParagraph) is not under contract",
+		},
+	},
+	"C13": {
+		decided: []string{
+			"character reference nodes select &name; / &#D{1,7}; / &#xH{1,6}; (parseCharacterEscape's postcondition carried to the node created in parse)",
+			"autolink nodes select <...> and have exactly one text child spanning the inside; soft line break nodes select \\n, \\r or \\r\\n; hard line break nodes select a backslash, or two or more spaces followed only by spaces and line-ending characters (parseHardLineBreakSpace, parseBackslash)",
+			"these shapes are obligations at every addToRoot call of the tokeniser (parse, parseBackslash), for every path through the scanning loop",
+			"recognisers whose results become block attributes: list marker = bullet or 1-9 digits + . or ) (parseListMarker), ATX level = length of the # run (parseATXHeading), fence = 3+ equal fence characters (parseCodeFence), setext underline (parseSetextHeadingUnderline): exact contracts (shared with C15)",
+		},
+		notDecided: []string{
+			"emphasis / strong (processEmphasis, wrap), code spans (parseCodeSpan over the inline reader), links and images (parseEndBracket), raw HTML tags (parseHTMLTag): the functions that build these nodes are abstracted in parse and not under contract",
+			"that a block node's span starts where the recogniser matched (ListMarker, ATX, fence, block quote '>'): needs the line cursor's contracts (Indent / ConsumeIndent / Advance), not built",
+			"span validity inside parse (cursor within the unparsed run) is assumed (A-C02-1)",
 		},
 	},
 	"C20": {
